@@ -406,4 +406,5 @@ def main():
     check.finish()
 
 
-main_guard(main)
+if __name__ == "__main__":
+    main_guard(main)
